@@ -5,7 +5,7 @@
 
 use crate::common::*;
 use crate::model;
-use crate::{ensure, ensure_eq_bytes};
+use crate::{ensure, ensure_eq_bytes, pick};
 use vp_base::obj::*;
 use vp_base::tape::{self, Tape};
 
@@ -16,7 +16,7 @@ or n >= width+2; distinct by hash of decoded values";
 
 pub fn check(ctx: &Ctx, t: &mut Tape<'_>, r: &mut Report) -> CheckResult {
     let v = CtsVariant::ALL[t.idx(6)];
-    let suite = ctx.pick_suite(t, |s| !s.cts.is_empty());
+    let suite = pick!(ctx, t, r, |s| s.has_cts());
     let f = suite.cts(v).unwrap();
     let bs = suite.info.bs;
     let par = suite.info.par;
